@@ -15,9 +15,10 @@ use radix_engine::blueprints::resource::*;
 use radix_engine::system::system_db_reader::*;
 use radix_engine::system::system_substates::{KeyValueEntrySubstate, LockStatus};
 use radix_transactions::manifest::BuildableManifest;
+use radix_transactions::validation::TransactionValidator;
 use scrypto_test::prelude::*;
 use serde_json::{json, Map, Value};
-use std::collections::BTreeMap;
+use std::collections::{BTreeMap, BTreeSet};
 use vh::util::*;
 use vh::Args;
 
@@ -523,6 +524,12 @@ pub fn error_class(e: &RuntimeError) -> String {
     if has("NodeBorrowed") || (has("BucketError") && has("Locked")) {
         return "BucketLocked".into();
     }
+    if has("AssertNextCallReturnsFailed") {
+        return "AssertNextCallReturnsFailed".into();
+    }
+    if has("AssertBucketContentsFailed") {
+        return "AssertBucketContentsFailed".into();
+    }
     if has("AuthError") && has("Unauthorized") {
         return "Unauthorized".into();
     }
@@ -553,7 +560,83 @@ fn ids_of(w: &World, r: &ResInfo, v: &Value) -> Vec<NonFungibleLocalId> {
 /// make any well-formed prefix end successfully: drop the proofs, return every bucket still in the
 /// name table, deposit the worktop without needing a signature.
 pub fn build(env: &Env, w: &World, ins: &[Value], upto: usize, cleanup: bool) -> TransactionManifestV1 {
-    let mut b = ManifestBuilder::new().lock_fee_from_faucet();
+    build_generic(ManifestBuilder::new(), env, w, ins, upto, cleanup, &|_b, x| {
+        panic!("V2 instruction {:?} in a V1 manifest", x.name())
+    })
+}
+
+/// the same as a V2 manifest (needed for the ASSERT_WORKTOP_RESOURCES_* / ASSERT_NEXT_CALL_RETURNS_* / ASSERT_BUCKET_CONTENTS instructions)
+pub fn build_v2(env: &Env, w: &World, ins: &[Value], upto: usize, cleanup: bool) -> TransactionManifestV2 {
+    build_generic(ManifestBuilder::new_v2(), env, w, ins, upto, cleanup, &|b, x| match x {
+        V2Ins::ResOnly(cs) => b.assert_worktop_resources_only(cs),
+        V2Ins::ResInclude(cs) => b.assert_worktop_resources_include(cs),
+        V2Ins::NextOnly(cs) => b.assert_next_call_returns_only(cs),
+        V2Ins::NextInclude(cs) => b.assert_next_call_returns_include(cs),
+        V2Ins::Bucket(k, c) => b.assert_bucket_contents(k, c),
+    })
+}
+
+pub fn uses_v2(ins: &[Value]) -> bool {
+    ins.iter().any(|i| matches!(i["op"].as_str().unwrap_or(""), "AssertResOnly" | "AssertResInclude" | "AssertNextCallOnly" | "AssertNextCallInclude" | "AssertBucket"))
+}
+
+pub enum V2Ins {
+    ResOnly(ManifestResourceConstraints),
+    ResInclude(ManifestResourceConstraints),
+    NextOnly(ManifestResourceConstraints),
+    NextInclude(ManifestResourceConstraints),
+    Bucket(ManifestBucket, ManifestResourceConstraint),
+}
+impl V2Ins {
+    fn name(&self) -> &'static str {
+        match self {
+            V2Ins::ResOnly(_) => "AssertResOnly",
+            V2Ins::ResInclude(_) => "AssertResInclude",
+            V2Ins::NextOnly(_) => "AssertNextCallOnly",
+            V2Ins::NextInclude(_) => "AssertNextCallInclude",
+            V2Ins::Bucket(..) => "AssertBucket",
+        }
+    }
+}
+
+/// model constraint [k, n, ids] on resource r -> ManifestResourceConstraint
+fn constraint_of(env: &Env, w: &World, r: &ResInfo, c: &Value) -> ManifestResourceConstraint {
+    let dec = |n: i64| env.amount(n, if r.fungible { r.div } else { 0 });
+    match c["k"].as_str().unwrap() {
+        "nz" => ManifestResourceConstraint::NonZeroAmount,
+        "ex" => ManifestResourceConstraint::ExactAmount(dec(c["n"].as_i64().unwrap())),
+        "al" => ManifestResourceConstraint::AtLeastAmount(dec(c["n"].as_i64().unwrap())),
+        "exnf" => ManifestResourceConstraint::ExactNonFungibles(ids_of(w, r, &c["ids"]).into_iter().collect()),
+        "alnf" => ManifestResourceConstraint::AtLeastNonFungibles(ids_of(w, r, &c["ids"]).into_iter().collect()),
+        other => panic!("unknown constraint kind {}", other),
+    }
+}
+fn constraints_of(env: &Env, w: &World, c: &Value) -> ManifestResourceConstraints {
+    let mut cs = ManifestResourceConstraints::new();
+    if let Some(o) = c.as_object() {
+        for (rname, con) in o {
+            let r = w.res.get(rname).expect("constraint on an unknown resource");
+            cs = cs.with_unchecked(r.addr, constraint_of(env, w, r, con));
+        }
+    } else if !c.as_array().map(|a| a.is_empty()).unwrap_or(false) {
+        panic!("unknown constraints form {}", c);
+    }
+    cs
+}
+
+fn build_generic<M: BuildableManifest>(
+    start: ManifestBuilder<M>,
+    env: &Env,
+    w: &World,
+    ins: &[Value],
+    upto: usize,
+    cleanup: bool,
+    v2: &dyn Fn(ManifestBuilder<M>, V2Ins) -> ManifestBuilder<M>,
+) -> M
+where
+    M::Instruction: From<InstructionV1>,
+{
+    let mut b = start.lock_fee_from_faucet();
     let mut nb: u32 = 0; // buckets created so far
     let mut np: u32 = 0;
     let mut live: Vec<u32> = vec![];
@@ -679,6 +762,16 @@ pub fn build(env: &Env, w: &World, ins: &[Value], upto: usize, cleanup: bool) ->
                 np += 1;
                 b.create_proof_from_auth_zone_of_all(r.unwrap().addr, format!("p{}", np))
             }
+            "AssertResOnly" => v2(b, V2Ins::ResOnly(constraints_of(env, w, &i["c"]))),
+            "AssertResInclude" => v2(b, V2Ins::ResInclude(constraints_of(env, w, &i["c"]))),
+            "AssertNextCallOnly" => v2(b, V2Ins::NextOnly(constraints_of(env, w, &i["c"]))),
+            "AssertNextCallInclude" => v2(b, V2Ins::NextInclude(constraints_of(env, w, &i["c"]))),
+            "AssertBucket" => {
+                // the amounts of the constraint are concretised at the divisibility of the bucket's resource
+                let rr = bres.get(bk(&i["k"]).0 as usize).and_then(|x| w.res.get(x)).cloned().expect("bucket of unknown resource");
+                let con = constraint_of(env, w, &rr, &i["c"]["b"]);
+                v2(b, V2Ins::Bucket(bk(&i["k"]), con))
+            }
             "AssertContains" => b.assert_worktop_contains(r.unwrap().addr, amt(r.unwrap())),
             "AssertAny" => b.assert_worktop_contains_any(r.unwrap().addr),
             "AssertNF" => b.assert_worktop_contains_non_fungibles(r.unwrap().addr, ids_of(w, r.unwrap(), &i["ids"])),
@@ -691,6 +784,10 @@ pub fn build(env: &Env, w: &World, ins: &[Value], upto: usize, cleanup: bool) ->
         };
     }
     if cleanup {
+        if uses_v2(ins) {
+            // a pending ASSERT_NEXT_CALL_RETURNS_* of the prefix must not judge the cleanup's own call: replace it by one that always holds
+            b = v2(b, V2Ins::NextInclude(ManifestResourceConstraints::new()));
+        }
         b = b.drop_named_proofs().drop_auth_zone_regular_proofs();
         for k in live {
             b = b.return_to_worktop(ManifestBucket(k));
@@ -698,6 +795,20 @@ pub fn build(env: &Env, w: &World, ins: &[Value], upto: usize, cleanup: bool) ->
         b = b.try_deposit_entire_worktop_or_abort(env.accts[0].addr, None);
     }
     b.build_no_validate()
+}
+
+pub enum AnyM {
+    V1(TransactionManifestV1),
+    V2(TransactionManifestV2),
+}
+impl AnyM {
+    fn executable(self, nonce: u32, proofs: &[NonFungibleGlobalId], v: &TransactionValidator) -> ExecutableTransaction {
+        let p: BTreeSet<NonFungibleGlobalId> = proofs.iter().cloned().collect();
+        match self {
+            AnyM::V1(m) => m.into_executable_with_proofs(nonce, p, v).unwrap(),
+            AnyM::V2(m) => m.into_executable_with_proofs(nonce, p, v).unwrap(),
+        }
+    }
 }
 
 fn raw_error(r: &TransactionReceipt) -> String {
@@ -790,10 +901,14 @@ fn replay(args: &Args) {
             // Building the manifests is the harness's own job: anything it cannot build (unknown instruction kind, argument
             // that cannot be concretised ...) is a TOOL error of this machinery, never an observation about the engine.
             let k = fail.max(0) as usize;
+            let v2m = uses_v2(ins);
+            let mk = |upto: usize, cleanup: bool| -> AnyM {
+                if v2m { AnyM::V2(build_v2(&env, &w, ins, upto, cleanup)) } else { AnyM::V1(build(&env, &w, ins, upto, cleanup)) }
+            };
             let built = catch(|| {
-                let full = build(&env, &w, ins, ins.len(), false);
+                let full = mk(ins.len(), false);
                 let (pa, pb) = if probe && !exp_ok {
-                    (Some(build(&env, &w, ins, k, true)), if k < ins.len() { Some(build(&env, &w, ins, k + 1, true)) } else { None })
+                    (Some(mk(k, true)), if k < ins.len() { Some(mk(k + 1, true)) } else { None })
                 } else {
                     (None, None)
                 };
@@ -814,8 +929,7 @@ fn replay(args: &Args) {
                 if let Some(pa) = pa {
                     // the instructions before the predicted failing one must all succeed ...
                     let a = env.ledger.execute_transaction_no_commit(
-                        pa.into_executable_with_proofs(900_000 + steps as u32, proofs.iter().cloned().collect(), env.ledger.transaction_validator())
-                            .unwrap(),
+                        pa.executable(900_000 + steps as u32, &proofs, env.ledger.transaction_validator()),
                         ExecutionConfig::for_test_transaction(),
                     );
                     let (oa, ea) = outcome(&a);
@@ -824,14 +938,17 @@ fn replay(args: &Args) {
                 if let Some(pb) = pb {
                     // ... and the prefix including it must fail even when everything is cleaned up afterwards
                     let b2 = env.ledger.execute_transaction_no_commit(
-                        pb.into_executable_with_proofs(950_000 + steps as u32, proofs.iter().cloned().collect(), env.ledger.transaction_validator())
-                            .unwrap(),
+                        pb.executable(950_000 + steps as u32, &proofs, env.ledger.transaction_validator()),
                         ExecutionConfig::for_test_transaction(),
                     );
                     let (ob, eb) = outcome(&b2);
                     probes.push((format!("prefix[0..{}]+cleanup", k), "fail".to_string(), ob, eb));
                 }
-                (env.ledger.execute_manifest(m, proofs), probes)
+                let receipt = match m {
+                    AnyM::V1(m) => env.ledger.execute_manifest(m, proofs),
+                    AnyM::V2(m) => env.ledger.execute_manifest(m, proofs),
+                };
+                (receipt, probes)
             });
             let (receipt, probes) = match res {
                 Ok(x) => x,
